@@ -360,7 +360,7 @@ def fiber_at(root, prefix):
     return f
 
 
-PARTS = [Part("split", cases(), check, n_quick=3000, n_thorough=10000)]
+PARTS = [Part("split", cases(), check, n_quick=3000, n_thorough=30000)]
 
 
 def _pin_p9b():
